@@ -288,9 +288,9 @@ class Runner(object):
     def probe(self, api, project, text, pos, filename):
         """Signature of the failure of one call, or None."""
         if api == 'lint':
-            pinfo = parse_info(text, filename)
+            pinfo = parse_info(text, filename or '<string>')
         else:
-            pinfo = parse_info(marked_text(text, pos), filename)
+            pinfo = parse_info(marked_text(text, pos), filename or '<string>')
         return self.classify(api, project, text, pos, filename, pinfo, min(10.0, self.cpu_limit))[1]
 
     def shrink_all(self, budget=12.0):
@@ -495,10 +495,10 @@ def new_project(root):
 
 def run_calls(R, project, text, positions, filename, case, apis=('assist', 'location'), do_lint=True):
     if do_lint:
-        R.call('lint', project, text, None, filename, case, parse_info(text, filename))
+        R.call('lint', project, text, None, filename, case, parse_info(text, filename or '<string>'))
     for pos in positions:
         pos = clamp_pos(text, pos)
-        pinfo = parse_info(marked_text(text, pos), filename)
+        pinfo = parse_info(marked_text(text, pos), filename or '<string>')
         for api in apis:
             R.call(api, project, text, pos, filename, case, pinfo)
 
@@ -518,6 +518,14 @@ def job_file(R, job, tmp):
     base = {'kind': 'file', 'path': path, 'seed': job['seed'], 'npos': job['npos'], 'nmut': job['nmut'], 'extra_pos': job.get('extra_pos', 0)}
     R.h('input', 'file')
     run_calls(R, project, text, interesting_positions(lines, rng, job['npos']), path, dict(base, mutation='none'))
+    nofile = job.get('nofile', 3)
+    if nofile:
+        # the same text as an unsaved buffer: filename=None, fresh project
+        R.h('input', 'file:unsaved')
+        case = dict(base, mutation='none', unsaved=True)
+        if len(text) <= 3000:
+            case['source'] = text
+        run_calls(R, new_project(tmp), text, interesting_positions(lines, rng, nofile), None, case)
     for kind, new, pos in mutations(text, rng, job['nmut']):
         R.h('input', 'mut:' + kind)
         case = dict(base, mutation=kind)
@@ -547,7 +555,8 @@ def job_text(R, job, tmp):
         os.makedirs(os.path.dirname(p), exist_ok=True)
         with open(p, 'w') as f:
             f.write(content)
-    filename = os.path.join(root, job.get('filename', 'main.py'))
+    fn = job.get('filename', 'main.py')
+    filename = os.path.join(root, fn) if fn else None        # None: an unsaved buffer
     text = job['source']
     R.root = root
     R.cpu_limit = float(job.get('cpu_limit') or CALL_CPU_LIMIT)
@@ -561,12 +570,18 @@ def job_text(R, job, tmp):
         positions = interesting_positions(lines, random.Random(job.get('seed', 0)), spec)
     else:
         positions = [tuple(p) for p in spec]
-    case = {'kind': 'text', 'source': text, 'files': job.get('files') or {}, 'filename': job.get('filename', 'main.py'),
+    case = {'kind': 'text', 'source': text, 'files': job.get('files') or {}, 'filename': fn,
             'tag': job.get('tag', '')}
     R.h('input', 'text:' + job.get('tag', 'gen'))
     try:
         run_calls(R, project, text, positions, filename, case, apis=tuple(job.get('apis') or ('assist', 'location')),
                   do_lint=job.get('lint', True))
+        if job.get('nofile') and filename is not None:
+            # the same text as an unsaved buffer (filename=None), fresh project
+            R.h('input', 'text:unsaved')
+            sub = positions if len(positions) <= 40 else random.Random(len(text)).sample(positions, 40)
+            run_calls(R, new_project(root), text, sub, None, dict(case, filename=None),
+                      apis=tuple(job.get('apis') or ('assist', 'location')), do_lint=job.get('lint', True))
     finally:
         R.cpu_limit = CALL_CPU_LIMIT
 
@@ -582,6 +597,13 @@ def run_jobs(jobs, repo, progress=None):
         raise RuntimeError('supp imported from %s, expected %s' % (real, repo))
     R = Runner(repo)
     tmp = tempfile.mkdtemp(prefix='c08w_')
+    cwd = os.path.join(tmp, 'cwdpkg', 'sub')
+    os.makedirs(cwd)
+    for d in (os.path.dirname(cwd), cwd):
+        with open(os.path.join(d, '__init__.py'), 'w') as f:
+            f.write('x = 1\n')
+    old_cwd = os.getcwd()
+    os.chdir(cwd)
     try:
         for k, job in enumerate(jobs):
             if progress:
@@ -597,6 +619,7 @@ def run_jobs(jobs, repo, progress=None):
         R.shrink_all()
     finally:
         import shutil
+        os.chdir(old_cwd)
         shutil.rmtree(tmp, ignore_errors=True)
     return {'calls': R.calls, 'nontrivial': R.nontrivial, 'hist': R.hist,
             'failures': list(R.failures.values()), 'fail_counts': R.fail_counts}
@@ -648,6 +671,10 @@ class ProgGen(object):
         if k < 0.78:
             return '{%s: %s for %s in %s}' % (self.expr(d + 2), self.expr(d + 2), self.target(d + 2), self.expr(d + 2))
         if k < 0.82:
+            if r.random() < 0.4:
+                return 'lambda self%s: %s' % (r.choice(['', '', ', other', ', *a', ', x=self']),
+                                              r.choice(['self.%s' % r.choice(self.ATTRS), 'self', 'self.%s()' % r.choice(self.ATTRS),
+                                                        'self.%s.%s' % (r.choice(self.ATTRS), r.choice(self.ATTRS)), self.expr(d + 2)]))
             return 'lambda %s: %s' % (r.choice(['', 'a', 'a, b=1', '*a, **k', 'a, /, b', 'a, *, k=x']), self.expr(d + 2))
         if k < 0.85:
             return '(%s := %s)' % (r.choice(['a', 'b', 'x', 'locals']), self.expr(d + 2))
@@ -749,8 +776,23 @@ class ProgGen(object):
         if k < 0.97:
             bases = ', '.join(r.choice(['A', 'B', 'C', 'object', 'a', 'x', 'm1.A', 'f()', 'os', 'metaclass=%s' % self.name()])
                               for _ in range(r.randint(0, 2)))
-            return [p + 'class %s%s:' % (r.choice(['A', 'B', 'C', 'a']), '(%s)' % bases if bases or r.random() < 0.2 else '')] + \
-                self.block(ind + 1, depth + 1)
+            body = self.block(ind + 1, depth + 1)
+            q = p + '    '
+            for _ in range(r.choice([0, 0, 1, 1, 2])):
+                # lambdas written directly in the class body: properties, sort keys, callbacks
+                at, at2 = r.choice(self.ATTRS), r.choice(self.ATTRS)
+                body.insert(r.randint(0, len(body)), q + r.choice([
+                    '%s = property(lambda self: self.%s)' % (at2, at),
+                    '%s = lambda self: self.%s' % (at2, at),
+                    '__lt__ = lambda self, other: self.%s < other.%s' % (at, at),
+                    '%s = staticmethod(lambda x: x.%s)' % (at2, at),
+                    '%s = classmethod(lambda cls: cls.%s)' % (at2, at),
+                    '%s = lambda self, *a: self.%s(*a)' % (at2, at),
+                    '%s = property(lambda self: self.%s, lambda self, v: setattr(self, "%s", v))' % (at2, at, at),
+                    '%s = sorted(%s, key=lambda self: self.%s)' % (at2, self.name(), at),
+                    '%s = lambda self=%s: self.%s' % (at2, self.name(), at),
+                    '%s = lambda: lambda self: self.%s' % (at2, at)]))
+            return [p + 'class %s%s:' % (r.choice(['A', 'B', 'C', 'a']), '(%s)' % bases if bases or r.random() < 0.2 else '')] + body
         return [p + 'match %s:' % self.name(), p + '    case %s:' % r.choice(['[a, b]', '{"k": x}', 'A(a=y)', 'x if x else y', '_', 'a.b']),
                 p + '        ' + self.expr()]
 
@@ -823,6 +865,26 @@ SPECIAL_CASES = [
     ('halftyped', 'from pkg import |\n'), ('halftyped', 'from pkg.|\n'), ('halftyped', 'from pkg.sub import |\n'), ('halftyped', 'import pkg.sub\npkg.|\n'), ('halftyped', 'import pkg.sub\npkg.sub.|\n'),
     ('halftyped', '    from |\n'), ('halftyped', 'def f():\n    from os import |\n'), ('halftyped', 'x = """\nfrom the os.|\n"""\n'), ('halftyped', '# from os.|\n'),
     ('halftyped', 'from os import path; from |\n'), ('halftyped', 'from\tos.|\n'), ('halftyped', 'from os.path import(|\n'), ('halftyped', 'from os import path\\\n  , |\n'),
+    ('lambda', 'class Q:\n    def __init__(self):\n        self._name = "q"\n    name = property(lambda self: self.|_name)\n'),
+    ('lambda', 'class Q:\n    def __init__(self):\n        self._name = "q"\n    name = property(lambda self: self._na|me)\n'),
+    ('lambda', 'class Q:\n    _name = "q"\n    name = property(lambda self: self|)\n'), ('lambda', 'class Q:\n    name = property(lambda se|lf: self)\n'),
+    ('lambda', 'class R:\n    rank = 0\n    key = lambda self: self.|rank\n'), ('lambda', 'class R:\n    rank = 0\n    key = lambda self: self.rank|\n'),
+    ('lambda', 'class R:\n    rank = 0\n    __lt__ = lambda self, other: self.rank < other.|rank\n'), ('lambda', 'class R:\n    rank = 0\n    key = lambda self: self.rank.|\n'),
+    ('lambda', 'class R:\n    rank = 0\n    key = lambda self: self.|\n'), ('lambda', 'class R:\n    rank = 0\n    key = lambda self: self.\n    other = 1\nR().key|\n'),
+    ('lambda', 'class R:\n    rank = 0\n    key = lambda self: self.rank\nR().key.|\n'), ('lambda', 'class R:\n    rank = 0\n    key = lambda self: self.rank\nR().key().|\n'),
+    ('lambda', 'class R:\n    rank = 0\n    name = property(lambda self: self.rank)\nR().name.|\n'), ('lambda', 'class R:\n    rank = 0\n    name = property(lambda self: self.rank)\nR().na|me\n'),
+    ('lambda', 'class R:\n    rank = 0\n    cb = staticmethod(lambda x: x.|rank)\n'), ('lambda', 'class R:\n    rank = 0\n    cm = classmethod(lambda cls: cls.|rank)\n'),
+    ('lambda', 'class R:\n    rank = 0\n    f = lambda self, *a, **k: self.|rank\n'), ('lambda', 'class R:\n    rank = 0\n    f = lambda self=None: self.|rank\n'),
+    ('lambda', 'class R:\n    rank = 0\n    f = lambda: lambda self: self.|rank\n'), ('lambda', 'class R:\n    rank = 0\n    class S:\n        f = lambda self: self.|rank\n'),
+    ('lambda', 'class R:\n    rank = 0\n    def m(self):\n        return lambda x: x.|rank\n'), ('lambda', 'class R:\n    rank = 0\n    def m(self):\n        return lambda: self.|rank\n'),
+    ('lambda', 'class R:\n    rank = 0\n    items = sorted([], key=lambda self: self.|rank)\n'), ('lambda', 'class R:\n    rank = 0\n    xs = [lambda self: self.|rank for i in y]\n'),
+    ('lambda', 'class R:\n    rank = 0\n    @property\n    def p(self): return (lambda s: s.|rank)(self)\n'), ('lambda', 'key = lambda self: self.|name\n'),
+    ('lambda', 'class R(B):\n    f = lambda self: super().|\n'), ('lambda', 'class R:\n    rank = 0\n    f = lambda self: (yield self.|rank)\n'),
+    ('lambda', 'class R:\n    rank = 0\n    async def m(self):\n        await self.|rank\n'), ('lambda', 'class R:\n    rank = 0\n    @classmethod\n    def m(cls): cls.|rank\n'),
+    ('lambda', 'class R:\n    rank = 0\n    @staticmethod\n    def m(x): x.|rank\n'), ('lambda', 'class R:\n    rank = 0\n    @a.b\n    def m(self): self.|rank\n'),
+    ('sameline', 'for i in y: print(a|b); ab = 1\n'), ('sameline', 'while c: u|v; uv = 2\n'), ('sameline', 'f = lambda: g|g; gg = 1\n'),
+    ('sameline', 'def f(): return g|h; gh = 1\n'), ('sameline', 'def f(): return gh|\ngh = 1\n'), ('sameline', 'ab = 1; a|b\n'), ('sameline', 'for i in y: a|b.x; ab = z\n'),
+    ('sameline', 'class A: f = lambda s: B|; B = 1\n'), ('sameline', 'while c: (u|v, uv); uv = 2; uv = 3\n'), ('sameline', 'if c: p = 1\nelse: p = 2\nfor i in y: print(p|, q); p = 3; q = 4\n'),
     ('cycle', 'a = b\nb = a\na.|\n'), ('cycle', 'x = x.y\nx.|\n'), ('cycle', 'while c:\n    a = b\n    b = a\na.|\n'), ('cycle', 'for i in j:\n    x = x.y\nx|\n'),
     ('cycle', 'def f(): return g()\ndef g(): return f()\nf().|\n'), ('cycle', 'def f(): return f\nf()()().|\n'), ('cycle', 'def f(): return f()\nf|\n'),
     ('cycle', 'class A(A): pass\nA.|\n'), ('cycle', 'class A(A): pass\nA().|\n'), ('cycle', 'class B: pass\nclass A(B): pass\nclass B(A): pass\nA().|\n'),
@@ -1226,10 +1288,10 @@ Definition out_eqb (a b : loc_out) : bool :=
   end.
 Fixpoint outs_eqb (a b : list loc_out) : bool :=
   match a, b with [], [] => true | x :: r, y :: s => out_eqb x y && outs_eqb r s | _, _ => false end.
-Definition loc_case (c : list decl_entry * option (list loc_out)) : bool :=
-  match snd c with
-  | Some out => outs_eqb (format_fixed (fst c)) out
-  | None => false
+Definition loc_case (c : (Z * Z) * list decl_entry * option (list loc_out)) : bool :=
+  match c with
+  | (cur, entries, Some out) => outs_eqb (format_fixed cur entries) out
+  | (_, _, None) => false
   end.
 '''
 
@@ -1384,9 +1446,12 @@ def _special_jobs():
     jobs = []
     for tag, src in SPECIAL_CASES:
         s, pos = cursor_case(src) if '|' in src else (src, [1, 0])
-        for files in CYCLE_FILES:
+        for k, files in enumerate(CYCLE_FILES):
             for fn in ('main.py', 'pkg/main.py'):
                 jobs.append({'kind': 'text', 'source': s, 'files': files, 'positions': [pos], 'tag': tag, 'filename': fn})
+            if k < 2:
+                # unsaved buffer: filename=None
+                jobs.append({'kind': 'text', 'source': s, 'files': files, 'positions': [pos], 'tag': tag + ':unsaved', 'filename': None})
     return jobs
 
 
@@ -1399,6 +1464,7 @@ def _corpus_jobs():
             obj = json.load(open(os.path.join(CORPUS, fn)))
             for c in obj.get('cases', [obj]):
                 job = {'kind': 'text', 'source': c['source'], 'files': c.get('files') or {}, 'filename': c.get('filename', 'main.py'),
+                       'nofile': c.get('nofile', False),
                        'positions': c.get('positions', 'all'), 'tag': 'corpus:' + fn[:-5], 'apis': c.get('apis'), 'lint': c.get('lint', True),
                        'cpu_limit': c.get('cpu_limit')}
                 if fn.startswith('known_'):
@@ -1479,13 +1545,15 @@ def _shape_cases(ctx, samples):
             entries = []
         else:
             entries = recorded[0]
+        shifted = [0]
         try:
             ets = []
             for r in entries:
                 def obj(n):
                     if has_loc(n):
                         l, c = n.declared_at
-                        return 'Located (%d)%%Z (%d)%%Z %s' % (l, c, fid(n.filename))
+                        shifted[0] += int(n.filename == (fn or '<string>') and l == pos[0] and c > pos[1])
+                        return 'Located (%d)%%Z (%d)%%Z %s %s' % (l, c, fid(n.filename), 'true' if n.filename == (fn or '<string>') else 'false')
                     return 'Unlocated'
                 if isinstance(r, list):
                     ets.append('EAlts [%s]' % '; '.join(obj(n) for n in r))
@@ -1497,11 +1565,12 @@ def _shape_cases(ctx, samples):
                     outs.append('LAlts [%s]' % '; '.join('((%d)%%Z, (%d)%%Z, %s)' % (x['loc'][0], x['loc'][1], fid(x['file'])) for x in o))
                 else:
                     outs.append('LOne (%d)%%Z (%d)%%Z %s' % (o['loc'][0], o['loc'][1], fid(o['file'])))
-            loc_terms.append('([%s], Some [%s])' % ('; '.join(ets), '; '.join(outs)))
+            loc_terms.append('(((%d)%%Z, (%d)%%Z), [%s], Some [%s])' % (pos[0], pos[1], '; '.join(ets), '; '.join(outs)))
         except Exception as e:
-            loc_terms.append('([], None)')
+            loc_terms.append('((0%Z, 0%Z), [], None)')
         keep.append(('location', text, pos))
-        ctx.histogram('shape_location', 'entries=%d unlocated=%d' % (min(len(entries), 3), sum(1 for r in entries if not isinstance(r, list) and not has_loc(r))))
+        ctx.histogram('shape_location', 'entries=%d unlocated=%d mark-shifted=%d' % (
+            min(len(entries), 3), sum(1 for r in entries if not isinstance(r, list) and not has_loc(r)), min(shifted[0], 1)))
     return lint_terms, loc_terms
 
 
@@ -1514,7 +1583,8 @@ def run(ctx):
         'exploration (direct evaluator): every lint/assist/location call of the real code on (a) stdlib+repo files with sampled cursor '
         'positions (identifier ends, after dots, import lines, random, end of file), (b) typing-state mutations of them (line truncated at the '
         'cursor, trailing dot, deleted line, truncated file, return/yield/break/... moved to module or class level, half-typed import), '
-        '(c) generated programs with sibling modules (import / star-import / inheritance cycles, packages), every position, (d) cursor on '
+        '(c) generated programs with sibling modules (import / star-import / inheritance cycles, packages; lambdas in class bodies), every position, '
+        'a third of them and a sample of positions of every file also as an unsaved buffer (filename=None, worker cwd inside a package), (d) cursor on '
         'builtins, compiled modules, unknown and half-typed module names x 5 cyclic projects x 2 file locations; oracle = statement of C08; '
         'evaluations = API calls; non-trivial = distinct (api, text, position) whose answer is not empty (proposals, locations, diagnostics or E01). '
         '(I): generated projects in the modelled fragment, object graph dumped, Model.Eval evaluated on it inside Coq; non-trivial = the '
@@ -1686,12 +1756,13 @@ def run(ctx):
     files = stdlib_files(limit=nfiles, rng=erng)
     npos, nmut, extra = ctx.pick((12, 8, 0), (45, 36, 2))
     for f in files:
-        jobs.append({'kind': 'file', 'path': f, 'seed': '%s/%s' % (ctx.seed, os.path.basename(f)), 'npos': npos, 'nmut': nmut, 'extra_pos': extra})
+        jobs.append({'kind': 'file', 'path': f, 'seed': '%s/%s' % (ctx.seed, os.path.basename(f)), 'npos': npos, 'nmut': nmut, 'extra_pos': extra,
+                     'nofile': ctx.pick(3, 8)})
     nprog = ctx.pick(240, 9000)
     for i in range(nprog):
         src = ProgGen(erng).module()
         jobs.append({'kind': 'text', 'source': src, 'files': gen_project_files(erng), 'positions': 'all' if len(src) < 350 else 50,
-                     'seed': i, 'tag': 'gen', 'filename': erng.choice(['main.py', 'main.py', 'pkg/main.py'])})
+                     'seed': i, 'tag': 'gen', 'filename': erng.choice(['main.py', 'main.py', 'pkg/main.py']), 'nofile': i % 3 == 0})
     # big files first (long pole), then the rest interleaved
     def weight(j):
         if j['kind'] == 'file':
@@ -1743,7 +1814,7 @@ def replay(ctx, obj):
                    'extra_pos': case.get('extra_pos', 0)}
         else:
             job = {'kind': 'text', 'source': case['source'], 'files': case.get('files') or {},
-                   'filename': case['path'] if case.get('kind') == 'file' else case.get('filename', 'main.py'),
+                   'filename': (None if case.get('unsaved') else case['path']) if case.get('kind') == 'file' else case.get('filename', 'main.py'),
                    'positions': [case['pos']] if case.get('pos') else [], 'apis': [case['api']] if case.get('api') in ('assist', 'location') else None,
                    'lint': case.get('api') == 'lint' or not case.get('pos')}
         res = run_jobs([job], REPO)
